@@ -53,6 +53,7 @@ func main() {
 	if len(os.Args) < 3 {
 		die(2, "usage: vsim check <id> [--tier quick|thorough] | vsim replay <file> | vsim selftest <name>")
 	}
+	props.FixtureDir = filepath.Join(repoDir(), "_fixtures")
 	switch os.Args[1] {
 	case "check":
 		id := os.Args[2]
